@@ -152,6 +152,16 @@ func Generate(name, grammar string, opts []string) (*GenProgram, error) {
 	if err := u.CS.ParseFile(filepath.Join(repoDir, "tree", cfile)); err != nil {
 		return nil, err
 	}
+	// "$T" in modifies clauses stands for the parser struct of the grammar
+	for _, fc := range u.CS.Funcs {
+		for _, m := range fc.Modifies {
+			for i, f := range m.Fields {
+				if strings.HasPrefix(f, "$T.") {
+					m.Fields[i] = gp.structName() + f[2:]
+				}
+			}
+		}
+	}
 	// rule constants of the generated file
 	gp.Consts = map[string]int{}
 	sc := u.Pkg.Types.Scope()
@@ -306,7 +316,7 @@ func (gp *GenProgram) structName() string {
 }
 
 // provider resolves calls of rule closures: _rules[ruleX]() and p.rules[r]().
-func (gp *GenProgram) provider(fv *FV, call *ast.CallExpr) *CalleeSpec {
+func (gp *GenProgram) provider(fv *FV, call *ast.CallExpr, cx *Cx) *CalleeSpec {
 	ix, ok := unparen(call.Fun).(*ast.IndexExpr)
 	if !ok {
 		// memoizedResult gets the ghost argument r = the rule being verified
@@ -336,8 +346,7 @@ func (gp *GenProgram) provider(fv *FV, call *ast.CallExpr) *CalleeSpec {
 	if fc == nil {
 		panic(refuse("no generic rule contract"))
 	}
-	cx := fv.codeCx(&State{pc: "true", vals: map[string]string{}})
-	idx := fv.expr(ix.Index, cx)
+	idx := fv.expr(ix.Index, cx.with(func(c *Cx) { c.noOb = true }))
 	pos := fv.fn.Body.Lbrace + 1
 	return &CalleeSpec{Key: "Init.$rule", FC: fc, ScopePos: pos, Results: []types.Type{types.Typ[types.Bool]}, ExtraEnv: map[string]TV{"r": {T: idx.T, Ty: tInt, S: SInt}}}
 }
